@@ -134,6 +134,17 @@ def bounded(ctx):
                 # every rotation of the vector plasmid, then of the module plasmid (the origin on every boundary)
                 rotsets += [(ba.rotate(vtext, r_), list(mods)) for r_ in range(len(vtext))]
                 rotsets += [(vtext, [ba.rotate(mods[0], r_)] + list(mods[1:])) for r_ in range(len(mods[0]))]
+                # letter case: all lower, random mixture, and a soft-masked window at every position of the module and of
+                # the vector (a case boundary inside the site, inside an overhang, across the origin)
+                def mask(t_, a_, ln_):
+                    idx = {(a_ + j_) % len(t_) for j_ in range(ln_)}
+                    return "".join(c_.lower() if i_ in idx else c_.upper() for i_, c_ in enumerate(t_))
+                rotsets += [(vtext.lower(), [t_.lower() for t_ in mods]), (vtext, [t_.lower() for t_ in mods]),
+                            ("".join(c_.lower() if rng.random() < 0.5 else c_ for c_ in vtext),
+                             ["".join(c_.lower() if rng.random() < 0.5 else c_ for c_ in t_) for t_ in mods])]
+                wl = 1 + len(site) // 2
+                rotsets += [(vtext, [mask(mods[0], a_, wl)] + list(mods[1:])) for a_ in range(len(mods[0]))]
+                rotsets += [(mask(vtext, a_, wl), list(mods)) for a_ in range(len(vtext))]
             for trial, (vt, mts) in enumerate(rotsets):
                 evals += 1
                 # typing symmetry of each module
@@ -177,7 +188,7 @@ def bounded(ctx):
     for v_ in viol:
         uniq.setdefault(v_["name"], v_)
     return dict(evaluations=evals, distinct_nontrivial=len(distinct),
-                rule="every rotation of the vector and of the module for two geometries (all in thorough); C01's input space (every enzyme / one per geometry in quick, chains of 1-2 (3), random rotations): each module "
+                rule="every rotation of the vector and of the module, all-lower / mixed case and a soft-masked window at every position, for two geometries (all in thorough); C01's input space (every enzyme / one per geometry in quick, chains of 1-2 (3), random rotations): each module "
                      "and vector versus its reverse complement (valid iff valid, overhangs exchanged and reverse-complemented, body "
                      "reverse-complemented) and the assembly of all reverse complements versus the reverse complement of the product "
                      "(up to rotation)", bound="2 (5) rotations per scenario", samples=samples,
